@@ -1,7 +1,32 @@
 (* Declarative reading of property C13 (capacity, victim choice, what each
    operation may remove) over a history, the outputs and the set of keys
-   present after every operation.  Recency is derived from the history alone:
-   stores and successful lookups count as use. *)
+   present after every operation, in boolean (executable) form.  It never looks
+   at the model's state.  Recency is derived from the history alone: stores and
+   successful lookups count as use.
+
+   Reading of the property text, clause by clause:
+   (1) "never holds more entries than its capacity"
+         -> after every operation  |present| <= capacity  (and no key twice);
+   (2) "inserting a new key into a full cache removes exactly one entry - an
+        expired one if any exists, otherwise the least recently used, where
+        both lookups and stores count as use"
+         -> when a Set stores a key that was absent while |present| >= capacity,
+            exactly one key disappears; if some present key is expired at that
+            instant the one that disappears is expired (ANY expired one: the
+            text does not say which), otherwise it is the present key whose
+            last use (Set, or Get that returned a value) is the oldest;
+   (3) "so an unexpired entry is never lost ..."
+         -> in every other situation a key may disappear only if its entry is
+            expired at that instant or it is the argument of Delete; in
+            particular a Set leaves its own key present unless the entry it
+            stores is already expired on arrival (negative lifetime).
+   The retention clause in its global form ("... while fewer than capacity
+   other keys have been used since its own last use") follows from (2)+(3); it
+   is proved for the model as C13_retention.
+   Nothing is demanded about WHEN expired entries are purged, about Delete
+   actually deleting or about returned values: those belong to C12.
+   The present-key lists are used as sets (membership, cardinality): their
+   order is irrelevant. *)
 From VF Require Import Base.Prelude Model.Cache Spec.CacheSpec.
 Open Scope Z_scope.
 
@@ -18,18 +43,21 @@ Definition bump (k : key) (l : list key) : list key := remove_key k l ++ [k].
 Definition bump_use (u : option key) (l : list key) : list key :=
   match u with Some k => bump k l | None => l end.
 
+(* the entry the history says key k has (latest Set not followed by Delete)
+   has a lifetime that elapsed strictly before `now` *)
 Definition is_expired (rh : list (time * op)) (now : time) (k : key) : bool :=
   match latest_rev rh k with Some (_, e) => Z.ltb e now | None => false end.
 
 Definition subset (a b : list key) : bool := forallb (fun x => memk x b) a.
 
+Definition absent_from (after : list key) (x : key) : bool := negb (memk x after).
+
+(* keys present before and not after *)
 Definition removed (before after : list key) : list key :=
-  filter (fun x => negb (memk x after)) before.
+  filter (absent_from after) before.
 
 Fixpoint nodupb (l : list key) : bool :=
   match l with [] => true | x :: r => negb (memk x r) && nodupb r end.
-
-Definition is_nil (l : list key) : bool := match l with [] => true | _ => false end.
 
 Definition present_in (before : list key) (y : key) : bool := memk y before.
 
@@ -41,29 +69,29 @@ Definition victim_ok (rh : list (time * op)) (lru before : list key) (now : time
   | ex => memk x ex
   end.
 
+Definition deleted_or_expired (rh : list (time * op)) (now : time) (k x : key) : bool :=
+  N.eqb k x || is_expired rh now x.
+
 Definition step_ok (capacity : nat) (rh : list (time * op)) (lru before : list key)
            (now : time) (o : op) (out : option Z) (after : list key) : bool :=
   nodupb after && Nat.leb (length after) capacity &&
   match o with
   | OSet k _ _ =>
-      memk k after && subset after (k :: before) &&
-      (if memk k before then is_nil (removed before after)
-       else if Nat.leb capacity (length before)
-            then match removed before after with
-                 | [x] => victim_ok rh lru before now x
-                 | _ => false
-                 end
-            else is_nil (removed before after))
-  | OGet k =>
-      subset after before &&
-      (match out with
-       | Some _ => is_nil (removed before after)
-       | None => forallb (fun x => N.eqb x k && is_expired rh now k) (removed before after)
-       end)
-  | ODel k =>
-      subset after before && negb (memk k after) && forallb (N.eqb k) (removed before after)
-  | OCleanup =>
+      subset after (k :: before) &&
+      (if memk k after && negb (memk k before) && Nat.leb capacity (length before)
+       then (* a new key went into a full cache *)
+            match removed before after with
+            | [x] => victim_ok rh lru before now x
+            | _ => false
+            end
+       else (* overwrite, or room left, or nothing stored: only expired entries may go;
+               "expired" is read after this Set, so that it speaks of the entry just stored *)
+            (memk k after || is_expired ((now, o) :: rh) now k)
+            && forallb (is_expired ((now, o) :: rh) now) (removed before after))
+  | OGet _ | OCleanup =>
       subset after before && forallb (is_expired rh now) (removed before after)
+  | ODel k =>
+      subset after before && forallb (deleted_or_expired rh now k) (removed before after)
   end.
 
 Fixpoint check_lru_from (capacity : nat) (rh : list (time * op)) (lru before : list key)
